@@ -51,6 +51,17 @@ func newTokenizer(kind string) tokzr {
 		return ctok.NewExpressionTokenizer()
 	case kind == "m":
 		return mtok.NewMustacheTokenizer()
+	case strings.HasPrefix(kind, "K") && len(kind) >= 3:
+		// a generic / expression tokenizer re-configured by the user: K<g|e>|<op>~<op>…  (ops as in the tokc protocol)
+		t := newTokenizer(kind[1:2]).(cfgTokzr)
+		if len(kind) > 3 {
+			for _, x := range strings.Split(kind[3:], "~") {
+				if o, ok := parseCfgOp(x); ok {
+					applyCfgOp(t, o)
+				}
+			}
+		}
+		return t
 	case kind == "h" || kind == "H":
 		// a user number state plugged in through the public extension points: 0x… literals come out with the public
 		// HexDecimal token type, everything else is left to the stock number state (h generic, H expression tokenizer)
@@ -156,6 +167,13 @@ func tokenizeImpl(kind string, opts int, input string) ([]tk, string) {
 }
 
 func tokOpLine(kind string, opts int, input []rune) string {
+	if strings.HasPrefix(kind, "K") && len(kind) >= 3 {
+		ops := "-"
+		if len(kind) > 3 {
+			ops = kind[3:]
+		}
+		return fmt.Sprintf("tokc %s %d %s %s", kind[1:2], opts, ops, runesStr(input))
+	}
 	return fmt.Sprintf("tok %s %d %s", kind, opts, runesStr(input))
 }
 
